@@ -73,7 +73,9 @@ for name, t in terms(D):
 
 # ---------------------------------------------------------------- (2) select against the reference
 NAMES = ["a", "b"]
-ATTRS = [(), (1,), (1, 2), ("x",)]        # "x": numeric comparisons raise on it - a predicate that raises counts as not matching
+# "x": numeric comparisons raise on it - a predicate that raises counts as not matching THAT attribute; mixed tuples put a raising attribute
+# before / after one that matches
+ATTRS = [(), (1,), (1, 2), ("x",), ("x", 1)]
 
 
 def forests(n):
@@ -120,6 +122,10 @@ QUERIES = [
     ("callable", lambda name: name == "b", name_is("b")),
     ("raising callable", raising, lambda n: False),
     ("(None, raising)", (None, raising), lambda n: False),
+    # a plain callable in an attribute position that raises on some attributes (int has no startswith / str cannot be compared with an int)
+    ("(None, callable lt 2)", (None, lambda v: v < 2), lambda n: any(isinstance(a, int) and a < 2 for a in n.attrs)),
+    ("(None, callable startswith x)", (None, lambda v: v.startswith("x")), lambda n: any(isinstance(a, str) and a.startswith("x") for a in n.attrs)),
+    ("('a', callable lt 2, 2)", ("a", lambda v: v < 2, 2), lambda n: n._name == "a" and any((isinstance(a, int) and a < 2) or a == 2 for a in n.attrs)),
 ]
 
 
